@@ -167,7 +167,12 @@ type HarnessResult struct {
 	BucketT     [5]time.Duration
 }
 
+var overrideLowering string
+
 func lowerOf(s string) Lowering {
+	if overrideLowering != "" {
+		s = overrideLowering
+	}
 	if s == "bv" {
 		return LBV
 	}
@@ -365,6 +370,7 @@ func main() {
 		workers := fs.Int("workers", 16, "parallel workers")
 		only := fs.String("only", "", "run only harnesses whose name contains this")
 		noReplay := fs.Bool("no-replay", false, "skip native replay (debugging)")
+		lowering := fs.String("lowering", "", "override the lowering of every selected harness (int|bv): cross-check mode")
 		if len(os.Args) < 3 {
 			fatal(2, "check needs a property id")
 		}
@@ -373,6 +379,7 @@ func main() {
 		if t := os.Getenv("VERIF_TIER"); t == "quick" || t == "thorough" {
 			*tier = t
 		}
+		overrideLowering = *lowering
 		os.Exit(runCheck(prop, *tier, *workers, *only, *noReplay))
 	case "selftest":
 		os.Exit(selftest())
